@@ -1,12 +1,17 @@
+(* C18: in the interleaving semantics of ConcModel - generic in the graph type, the const entry points and their results - the shared
+   graph never changes and a thread that has finished holds exactly its single-threaded results, under ANY schedule. *)
 From Coq Require Import List Arith ZArith Lia Bool.
-From BG Require Import Base DirectedModel ConcModel.
+From BG Require Import Base ConcModel.
 Import ListNotations.
 
 Section ConcP.
-Variable hs und : bool.
-Notation cstep := (cstep hs und). Notation crun := (crun hs und). Notation solo := (solo hs und). Notation eval := (eval hs und).
+Context {G R Q : Type}.
+Variable evalf : G -> Q -> R.
+Notation thread := (thread R Q). Notation config := (config G R Q).
+Notation cstep := (cstep evalf). Notation crun := (crun evalf). Notation solo := (solo evalf).
+Definition idle : thread := {| script := []; results := [] |}.
 
-Lemma crun_shared sched : forall c, shared (crun c sched) = shared c.
+Lemma crun_shared sched : forall c : config, shared (crun c sched) = shared c.
 Proof. induction sched as [|t s IH]; intros c; cbn [ConcModel.crun fold_left]; auto. fold (crun (cstep c t) s). rewrite IH. reflexivity. Qed.
 Lemma nth_upd_thread i k f (l : list thread) d : nth k (upd_thread i f l) d = if Nat.eqb k i then (if Nat.ltb i (length l) then f (nth i l d) else nth k l d) else nth k l d.
 Proof. revert i k. induction l as [|t r IH]; intros [|i] [|k]; cbn; auto.
@@ -16,11 +21,11 @@ Lemma upd_thread_length i f (l : list thread) : length (upd_thread i f l) = leng
 Proof. revert i. induction l as [|t r IH]; intros [|i]; cbn; auto. Qed.
 
 (* what thread k has done after any schedule: some prefix of its script, evaluated on the (unchanged) shared graph *)
-Definition progress (g : DirectedModel.dgraph) (t0 t : thread) : Prop :=
-  exists done, script t0 = done ++ script t /\ results t = results t0 ++ map (eval g) done.
-Theorem crun_progress sched : forall c0 c, (forall k, k < length (threads c0) -> progress (shared c0) (nth k (threads c0) {| script := []; results := [] |}) (nth k (threads c) {| script := []; results := [] |})) ->
+Definition progress (g : G) (t0 t : thread) : Prop :=
+  exists done, script t0 = done ++ script t /\ results t = results t0 ++ map (evalf g) done.
+Theorem crun_progress sched : forall (c0 c : config), (forall k, k < length (threads c0) -> progress (shared c0) (nth k (threads c0) idle) (nth k (threads c) idle)) ->
   shared c = shared c0 -> length (threads c) = length (threads c0) ->
-  forall k, k < length (threads c0) -> progress (shared c0) (nth k (threads c0) {| script := []; results := [] |}) (nth k (threads (crun c sched)) {| script := []; results := [] |}).
+  forall k, k < length (threads c0) -> progress (shared c0) (nth k (threads c0) idle) (nth k (threads (crun c sched)) idle).
 Proof.
   induction sched as [|t s IH]; intros c0 c P S Ln k Hk; cbn [ConcModel.crun fold_left]; [apply P; auto|].
   fold (crun (cstep c t) s). apply (IH c0 (cstep c t)); auto; [|cbn; rewrite upd_thread_length; auto].
@@ -30,9 +35,9 @@ Proof.
   exists (dn ++ [o]). cbn [script results]. split; [rewrite E1, <- app_assoc; reflexivity|]. rewrite E2, map_app, S, <- app_assoc. reflexivity.
 Qed.
 (* when a thread has run to completion - under ANY interleaving with the others - its results are exactly its single-threaded results *)
-Corollary crun_solo sched c0 k : k < length (threads c0) ->
-  let t0 := nth k (threads c0) {| script := []; results := [] |} in
-  let t := nth k (threads (crun c0 sched)) {| script := []; results := [] |} in
+Corollary crun_solo sched (c0 : config) k : k < length (threads c0) ->
+  let t0 := nth k (threads c0) idle in
+  let t := nth k (threads (crun c0 sched)) idle in
   results t0 = [] -> script t = [] -> results t = solo (shared c0) (script t0) /\ shared (crun c0 sched) = shared c0.
 Proof.
   intros Hk t0 t R0 Sc. split; [|apply crun_shared].
